@@ -168,11 +168,18 @@ def repo_tests_part(pid, V, pkg, run_re, work, stats, label):
     events before it)."""
     t0 = time.time()
     # (a test run that hangs is cut off: whatever it recorded until then is a prefix)
-    evs, rc, tail = record(pkg, run_re, os.path.join(work, "rec-" + label), timeout=420 if common.tier() == "quick" else 1200)
+    # the server package's cluster test is known to die during start-up now and then (a follower's
+    # follow function runs before the server has its database): such a run records next to
+    # nothing and is repeated; its verdict is not this check's business
+    for attempt in range(3):
+        evs, rc, tail = record(pkg, run_re, os.path.join(work, "rec-%s-%d" % (label, attempt)), timeout=420 if common.tier() == "quick" else 1200)
+        if len(evs) >= 100:
+            break
     stats["repo_test_exit_" + label] = rc
     stats["repo_test_events_" + label] = len(evs)
     if not evs:
-        raise InfraError("no hook events recorded from %s %s (exit %d):\n%s" % (pkg, run_re, rc, tail))
+        V.notes.append("%s %s recorded no hook events in 3 runs (exit %d): this part was not exercised: %s" % (pkg, run_re, rc, tail[-300:].replace("\n", " | ")))
+        return None
     cap = 25000 if common.tier() == "quick" else 200000
     if len(evs) > cap:
         # (acceptance is prefix-closed: a prefix of the execution is an execution)
